@@ -35,7 +35,7 @@ theorem validated_of_ok (tx : Tx) (s : Slots) (pre : St) (oi : Option L1Info)
     (hdep : tx.isDeposit = false) (hW : pre.bal tx.caller < W)
     (h : validateTxAgainstState tx s pre = .ok oi) :
     ∃ info env l1 chargeL, oi = some info ∧ Validated tx pre info env l1 chargeL ∧
-      l1 = (calculateTxL1Cost (tryFetch s tx.spec) env tx.spec).1 := by
+      calculateTxL1Cost (tryFetch s tx.spec) env tx.spec = (l1, info) := by
   unfold validateTxAgainstState at h
   simp only [hdep, Bool.false_eq_true, if_false] at h
   by_cases hn : nonceMismatch tx pre = true
@@ -78,7 +78,7 @@ theorem validated_of_ok (tx : Tx) (s : Slots) (pre : St) (oi : Option L1Info)
                       injection h with h
                       refine ⟨info, env, l1, chargeL, h.symm, ⟨henv, hidem, hch, ?_, hW⟩, ?_⟩
                       · unfold maxData; simp only [hcan, if_true]; omega
-                      · rw [hc]
+                      · exact hc
                   · simp only [h5, if_false] at h; cases h
                 · simp only [hcan, Bool.false_eq_true, if_false] at h
                   by_cases hle : tx.gasLimit * tx.gasPrice + tx.value + l1 + chargeL > pre.bal tx.caller
@@ -87,7 +87,7 @@ theorem validated_of_ok (tx : Tx) (s : Slots) (pre : St) (oi : Option L1Info)
                     injection h with h
                     refine ⟨info, env, l1, chargeL, h.symm, ⟨henv, hidem, hch, ?_, hW⟩, ?_⟩
                     · unfold maxData; simp only [hcan, Bool.false_eq_true, if_false]; omega
-                    · rw [hc]
+                    · exact hc
               · simp only [h4, if_false, Option.bind_none] at h; cases h
             · simp only [h3, if_false, Option.bind_none] at h; cases h
           · simp only [h2, if_false, Option.bind_none] at h; cases h
